@@ -402,3 +402,63 @@ def check_threshold_core(ctx, prefix="C04"):
             detail += "; signature and lookup key are the two halves of the same loop element: %s; verifying key is the value found by that lookup in the authorised table: %s" % (same_sig, key_from_lookup)
         ctx.inst(prefix + "/D4", "decrement guarded by authorised-key lookup and valid signature", ok4, detail, b.at(d.bb))
     check_verify_payload(ctx, prefix + "/D5")
+
+
+# ---------------------------------------------------------------------------------------------
+# enum <-> string tables of hand-written conversions
+# ---------------------------------------------------------------------------------------------
+def enum_to_string_table(fx, fn, enum_ty_suffix):
+    """For a function matching on an enum value (param) and producing a string per variant:
+    {variant: set of string constants used on that arm}."""
+    from ..ss import const_str
+    b = body_of(fx, fn["key"])
+    out = {}
+    for i in sorted(b.reach):
+        blk = b.blocks[i]
+        consts = []
+        for st in blk["stmts"]:
+            if st["k"] == "assign" and st["rv"]["k"] == "use":
+                c = op_const(st["rv"]["op"])
+                if c and "str" in c:
+                    consts.append(c["str"])
+        t = blk["term"]
+        if t and t["k"] == "call":
+            for a in t["args"]:
+                c = op_const(a)
+                if c and "str" in c:
+                    consts.append(c["str"])
+        if not consts:
+            continue
+        arm = None
+        for (e, fa) in b.facts_dominating(i):
+            if fa[0] == "variant" and (fa[3] or "").endswith(enum_ty_suffix):
+                arm = fa[2]
+        if arm is not None:
+            out.setdefault(arm, set()).update(consts)
+    return out
+
+
+def string_to_enum_table(fx, fn, enum_adt):
+    """For a function comparing a string with constants and constructing enum variants:
+    {variant: set of string constants whose equality edge dominates its construction}."""
+    b = body_of(fx, fn["key"])
+    out = {}
+    for i in sorted(b.reach):
+        blk = b.blocks[i]
+        for st in blk["stmts"]:
+            if st["k"] == "assign" and st["rv"]["k"] == "agg" and st["rv"].get("adt") == enum_adt:
+                v = st["rv"]["variant"]
+                strs = set()
+                for (e, fa) in b.facts_dominating(i):
+                    c = as_cmp(fa)
+                    if c and c[0] == "Eq":
+                        for o in (c[1], c[2]):
+                            cc = op_const(o)
+                            if cc and "str" in cc:
+                                strs.add(cc["str"])
+                            else:
+                                for lf in b.trace(o):
+                                    if lf.kind == "const" and "str" in lf.data:
+                                        strs.add(lf.data["str"])
+                out.setdefault(v, set()).update(strs)
+    return out
